@@ -1,5 +1,6 @@
 import SFV.Model.Locks
 import SFV.Lemmas.Claims
+import SFV.Lemmas.ClaimStatus
 /-! # C19 — concurrent recoveries share work and never deadlock
 
 Two protocol models of `RollbackFailureManager._recover` / `_synchronize_workflows`: ordered acquisition of the
@@ -63,6 +64,61 @@ theorem claim_twice_without_lock :
 example : (match Claims.runActs ⟨true⟩ Claims.init
       [.acquire 1 7, .check 1 7, .claim 1, .release 1 7, .acquire 2 7, .check 2 7, .release 2 7, .finish 7,
        .acquire 3 7, .check 3 7, .claim 3, .release 3 7] with
+    | some s => s.claims 7 == 1 && s.total 7 == 2 | none => false) = true := by decide
+
+/-! ## the status test of `is_recovering` (generated: `SFV.Gen.recoveringStatuses`) -/
+
+/-- **T**: every status a job has between a claim and the end of its re-execution (ROLLBACK set by `_update_request`, FIREABLE by
+    the scheduler, RUNNING by the ExecuteStep) is recognised by the repository's `is_recovering` -/
+theorem gen_is_recovering_covers_reexecution :
+    ∀ st, ClaimStatus.reexecuting st = true → Gen.isRecovering st = true := by
+  intro st; cases st <;> decide
+
+/-- **T**: a job that is not being re-executed (completed, failed, cancelled, skipped, or in RECOVERY = its own failure is being
+    handled and nobody rolled it back yet) is not reported as recovering — otherwise a recovery would attach to a re-execution
+    that nobody performs -/
+theorem gen_is_recovering_rejects_settled :
+    Gen.isRecovering .COMPLETED = false ∧ Gen.isRecovering .FAILED = false ∧ Gen.isRecovering .CANCELLED = false ∧
+    Gen.isRecovering .SKIPPED = false ∧ Gen.isRecovering .RECOVERY = false := by decide
+
+/-- **claim at most once per loss, with the repository's status test**: in the status-refined protocol (claim → ROLLBACK →
+    FIREABLE → RUNNING → COMPLETED or failed) run with the GENERATED `is_recovering`, every producer is claimed at most once
+    between two ends of its execution, in every interleaving of any number of recoveries -/
+theorem claim_at_most_once_while_reexecuting {s : ClaimStatus.St} (h : ClaimStatus.Reachable Gen.isRecovering s) (j : Nat) :
+    s.claims j ≤ 1 := by
+  have : ClaimStatus.Inv s := by
+    induction h with
+    | init => exact ClaimStatus.inv_init
+    | step _ hs ih => exact ClaimStatus.inv_step gen_is_recovering_covers_reexecution ih hs
+  exact this.1 j
+
+/-- each of the three statuses is necessary: a status test that misses one status of the re-execution (and, like the real one,
+    does not report completed jobs) lets a second recovery claim the producer while the first claim's re-execution is in that
+    status — two re-executions for one loss -/
+theorem unrecognised_status_claims_twice (seen : Gen.JobStatus → Bool) (st : Gen.JobStatus)
+    (hst : ClaimStatus.reexecuting st = true) (hmiss : seen st = false) (hc : seen .COMPLETED = false) :
+    ∃ s, ClaimStatus.Reachable seen s ∧ s.status 7 = .ROLLBACK ∧ s.claims 7 = 2 := by
+  have wit : ∀ as : List ClaimStatus.Act,
+      (∃ s', ClaimStatus.runActs seen ClaimStatus.init as = some s' ∧ s'.status 7 = .ROLLBACK ∧ s'.claims 7 = 2) →
+      ∃ s, ClaimStatus.Reachable seen s ∧ s.status 7 = .ROLLBACK ∧ s.claims 7 = 2 := by
+    rintro as ⟨s', hr, hp⟩
+    exact ⟨s', ClaimStatus.reachable_runActs as _ _ ClaimStatus.Reachable.init hr, hp⟩
+  cases st <;> simp [ClaimStatus.reexecuting] at hst
+  · -- FIREABLE
+    apply wit [.acquire 1 7, .check 1 7, .claim 1, .release 1 7, .schedule 7, .acquire 2 7, .check 2 7, .claim 2]
+    simp [ClaimStatus.runActs, ClaimStatus.step, ClaimStatus.init, hc, hmiss]
+  · -- RUNNING
+    apply wit [.acquire 1 7, .check 1 7, .claim 1, .release 1 7, .schedule 7, .start 7, .acquire 2 7, .check 2 7, .claim 2]
+    simp [ClaimStatus.runActs, ClaimStatus.step, ClaimStatus.init, hc, hmiss]
+  · -- ROLLBACK
+    apply wit [.acquire 1 7, .check 1 7, .claim 1, .release 1 7, .acquire 2 7, .check 2 7, .claim 2]
+    simp [ClaimStatus.runActs, ClaimStatus.step, ClaimStatus.init, hc, hmiss]
+
+/-- non-vacuity (status model, generated test): the second recovery arrives while the producer's re-execution is RUNNING and
+    attaches; after it completed and was lost again a third recovery claims it (total 2, one per epoch) -/
+example : (match ClaimStatus.runActs Gen.isRecovering ClaimStatus.init
+      [.acquire 1 7, .check 1 7, .claim 1, .release 1 7, .schedule 7, .start 7, .acquire 2 7, .check 2 7, .release 2 7,
+       .finish 7 true, .acquire 3 7, .check 3 7, .claim 3, .release 3 7] with
     | some s => s.claims 7 == 1 && s.total 7 == 2 | none => false) = true := by decide
 
 end SFV.C19
